@@ -15,9 +15,13 @@
 (*                    renegotiation); session offered, renegotiation_info  *)
 (*   Deliver          one server message is consumed by the client:        *)
 (*     OnServerHello    pickTLSVersion, canary, processServerHello         *)
-(*     OnCertificate    doFullHandshake: certificate, status               *)
+(*     OnCertificate    doFullHandshake: Certificate                       *)
+(*     OnAfterCert      optional CertificateStatus                         *)
 (*     VerifyThen       verifyServerCertificate / identity unchanged       *)
-(*     OnSKE / OnCertReq / OnHelloDone -> SendFlight                       *)
+(*     AfterVerify      ServerKeyExchange, CertificateRequest              *)
+(*                      (getClientCertificate), ServerHelloDone            *)
+(*     SendFlight       Certificate, ClientKeyExchange, CertificateVerify, *)
+(*                      ChangeCipherSpec, Finished                         *)
 (*     OnTicket         readSessionTicket                                  *)
 (*     OnFinished       readFinished (after the ChangeCipherSpec)          *)
 (*     OnPostHandshake  handleRenegotiation (HelloRequest, policy)         *)
@@ -147,6 +151,10 @@ ClientHello(cl, o, sess) ==
 IsECDHE(s) == KnownSuite(s) /\ SuiteRec(s).ECDHE
 
 \* ---- OnServerHello: u_handshake_client.go:525-591, handshake_client.go:568-586 pickTLSVersion, 913-985 processServerHello
+\* As coded (and as upstream): extended_master_secret, status_request, signed_certificate_timestamp and renegotiation_info
+\* in the ServerHello are taken as they come, they are not compared with what the hello carried (no listed property
+\* demands that); a cipher suite is not checked against the version; a renegotiation on a connection whose first
+\* ServerHello had no renegotiation_info goes on without any renegotiation_info check.
 OnServerHello(cl, cfg, m) ==
   IF m.t # 2 THEN Abort(cl, "unexpected-message:want-server-hello")
   ELSE IF m.bad THEN Abort(cl, "malformed-server-hello")
